@@ -173,9 +173,54 @@ def _single_return(fn):
     return b[0].value
 
 
+def _deepcopy_of_state(name, fn, memo, state_method, nstate, module):
+    """The second shape of a pendulum __deepcopy__ (Interval):
+         t1, ..., tn = self.<state method>()          # the method __reduce_ex__ takes its state from, called with its defaults
+         return self.__class__(a1, ..., an)           # a_i is `t_i` or `copy.deepcopy(t_i, <memo>)`, in order, nothing else
+    Returns the list of flags `a_i is deep-copied`, or None when the body is not of this shape (the caller then tries the other shape)."""
+    b = _body(fn)
+    if len(b) != 2 or not isinstance(b[0], ast.Assign) or not isinstance(b[1], ast.Return) or b[1].value is None:
+        return None
+    if state_method is None:
+        raise P.Unsupported(f"{name}.__deepcopy__ unpacks a state but __reduce_ex__ is not pendulum's")
+    m, mfn = state_method
+    asg, rv = b[0], b[1].value
+    if not (len(asg.targets) == 1 and isinstance(asg.targets[0], ast.Tuple) and all(isinstance(x, ast.Name) for x in asg.targets[0].elts)):
+        raise P.Unsupported(f"{name}.__deepcopy__: unsupported assignment {ast.unparse(asg)}")
+    locs = [x.id for x in asg.targets[0].elts]
+    if len(set(locs)) != len(locs) or memo in locs or "self" in locs or "copy" in locs:
+        raise P.Unsupported(f"{name}.__deepcopy__: locals {locs}")
+    if ast.unparse(asg.value) != f"self.{m}()":
+        raise P.Unsupported(f"{name}.__deepcopy__: state is not self.{m}(): {ast.unparse(asg.value)}")
+    margs = mfn.args
+    if len(margs.args) - 1 != len(margs.defaults):
+        raise P.Unsupported(f"{name}.{m} cannot be called without arguments")
+    if len(locs) != nstate:
+        raise P.Unsupported(f"{name}.__deepcopy__ unpacks {len(locs)} values from a state of {nstate}")
+    if not (isinstance(rv, ast.Call) and _is_self_class(rv.func)) or rv.keywords or len(rv.args) != len(locs):
+        raise P.Unsupported(f"{name}.__deepcopy__ does not return self.__class__(<the state, in order>)")
+    # `copy` must be the standard-library module, bound once, by a plain top-level import
+    binds = [n for n in ast.walk(module) if (isinstance(n, ast.Name) and isinstance(n.ctx, ast.Store) and n.id == "copy")
+             or (isinstance(n, (ast.Import, ast.ImportFrom)) and any((a.asname or a.name.split(".")[0]) == "copy" for a in n.names))
+             or (isinstance(n, (ast.FunctionDef, ast.ClassDef)) and n.name == "copy") or (isinstance(n, ast.arg) and n.arg == "copy")]
+    top = [n for n in module.body if isinstance(n, ast.Import) and [(a.name, a.asname) for a in n.names] == [("copy", None)]]
+    if len(binds) != 1 or len(top) != 1 or binds[0] is not top[0]:
+        raise P.Unsupported(f"{name}.__deepcopy__: `copy` is not bound exactly once by a top-level `import copy`")
+    flags = []
+    for loc, a in zip(locs, rv.args):
+        if isinstance(a, ast.Name) and a.id == loc:
+            flags.append(False)
+        elif ast.unparse(a) == f"copy.deepcopy({loc}, {memo})":
+            flags.append(True)
+        else:
+            raise P.Unsupported(f"{name}.__deepcopy__: argument {ast.unparse(a)} is neither {loc} nor copy.deepcopy({loc}, {memo})")
+    return flags
+
+
 def gen_reduce(ctx):
     cds = {n: _classdef(rel, n) for n, rel in CLASSES}
     cds.update({n: _classdef(rel, n) for n, rel in AUX.items()})
+    mods = {n: ast.parse(open(src(rel)).read()) for n, rel in list(CLASSES) + list(AUX.items())}
     meths = {n: _methods(cd) for n, cd in cds.items()}
     for n in AUX:
         bad = [m for m in meths[n] if m in PROTO or m in ("_getstate", "_get_state")]
@@ -219,7 +264,7 @@ def gen_reduce(ctx):
         out.append(f"Definition {name}_resolve : list (string * string) :=\n  [" + "; ".join(f"({coq_string(m)}, {coq_string(c)})" for m, c in res) + "].")
         r = dict(res)
         # __reduce_ex__ written in pendulum: `return self.__class__, self.<m>(protocol)`
-        state, swap = [], None
+        state, swap, state_method = [], None, None
         if r["__reduce_ex__"] in meths:
             fn = meths[r["__reduce_ex__"]]["__reduce_ex__"]
             ps, _ = _params(fn, "self")
@@ -238,6 +283,7 @@ def gen_reduce(ctx):
             if owner is None:
                 raise P.Unsupported(f"{name}: state method {m} not found in the pendulum classes of the MRO")
             state, swap = _state_tuple(meths[owner][m])
+            state_method = (m, meths[owner][m])
             # __reduce__ must defer to __reduce_ex__ (it is what copyreg / protocol-less callers use)
             if r["__reduce__"] in meths:
                 rr = _single_return(meths[r["__reduce__"]]["__reduce__"])
@@ -252,13 +298,17 @@ def gen_reduce(ctx):
             out.append(f"Definition {name}_state_swap : option (list string * Z * Z) := None.")
         else:
             out.append(f"Definition {name}_state_swap : option (list string * Z * Z) := Some ({sl(swap[0])}, {swap[1]}, {swap[2]}).")
-        # __deepcopy__ written in pendulum: `return self.__class__(self.a, ..., k=self.b)`
-        pos, kw = [], []
+        # __deepcopy__ written in pendulum: `return self.__class__(self.a, ..., k=self.b)`, or the state-based shape of _deepcopy_of_state
+        pos, kw, deep_state = [], [], None
         if r["__deepcopy__"] in meths:
             fn = meths[r["__deepcopy__"]]["__deepcopy__"]
             ps, _ = _params(fn, "self")
             if len(ps) != 1:
                 raise P.Unsupported(f"{name}.__deepcopy__ parameters")
+            deep_state = _deepcopy_of_state(name, fn, ps[0], state_method, len(state), mods[r["__deepcopy__"]])
+        if deep_state is not None:
+            pass
+        elif r["__deepcopy__"] in meths:
             rv = _single_return(fn)
             if not (isinstance(rv, ast.Call) and _is_self_class(rv.func)):
                 raise P.Unsupported(f"{name}.__deepcopy__ does not return self.__class__(...)")
@@ -274,6 +324,8 @@ def gen_reduce(ctx):
             raise P.Unsupported(f"{name}: __deepcopy__ from {r['__deepcopy__']}")
         out.append(f"Definition {name}_deepcopy_pos : list string := {sl(pos)}.")
         out.append(f"Definition {name}_deepcopy_kw : list (string * string) := [" + "; ".join(f"({coq_string(k)}, {coq_string(v)})" for k, v in kw) + "].")
+        out.append(f"Definition {name}_deepcopy_state : option (list bool) := "
+                   + ("None" if deep_state is None else "Some [" + "; ".join("true" if b else "false" for b in deep_state) + "]") + ".")
         for m in ("__copy__", "__getstate__", "__setstate__", "__getnewargs_ex__"):
             if r[m] in meths:
                 raise P.Unsupported(f"{name}: pendulum defines {m}; not modelled")
